@@ -253,20 +253,25 @@ def run(chk):
                     for i in range(1, n + 1):
                         GG[i, 0] = embed4(GS[i - 1], Q(0), gp[i - 1]) if dim == 4 else np.array([[gv[i - 1], Q(0)], [Q(0), gm[i - 1]]], dtype=object)
                     aL, aH = Steps("as_list"), Steps("a_half")
-                    hh, d = aH[step - 1, 0], aL[step] - aL[step - 1]
-                    if dim == 4:
-                        LS = np.empty((2, 2), dtype=object)
-                        for i in range(2):
-                            for j in range(2):
-                                LS[i, j] = ratio([GS[k][i, j] for k in range(n)], hh, n, d)
-                        want_ln = embed4(LS, Q(0), ratio(gp, hh, n, d))
-                    else:
-                        want_ln = np.array([[ratio(gv, hh, n, d), Q(0)], [Q(0), ratio(gm, hh, n, d)]], dtype=object)
+
+                    def spec_ln(hh, d):
+                        if dim == 4:
+                            LS = np.empty((2, 2), dtype=object)
+                            for i in range(2):
+                                for j in range(2):
+                                    LS[i, j] = ratio([GS[k][i, j] for k in range(n)], hh, n, d)
+                            return embed4(LS, Q(0), ratio(gp, hh, n, d))
+                        return np.array([[ratio(gv, hh, n, d), Q(0)], [Q(0), ratio(gm, hh, n, d)]], dtype=object)
+
+                    # the step is characterised by the interval it is built on -- a_half[j] with as_list[j+1] - as_list[j] for ONE j --, not by how the loop counts:
+                    # both usual ways of indexing an arbitrary iteration are admitted (loop variable = upper index of the interval, or = lower index)
+                    CANDIDATES = [spec_ln(aH[step - 1, 0], aL[step] - aL[step - 1]), spec_ln(aH[step, 0], aL[step + 1] - aL[step])]
                     st = {"calls": 0}
 
                     def matexp_stub(M):
                         st["calls"] += 1
                         M = np.array(M, dtype=object)
+                        want_ln = next((c for c in CANDIDATES if all(P.prove_zero(T.lift(M[i, j]) - T.lift(c[i, j]))[0] for i in range(dim) for j in range(dim))), CANDIDATES[0])
                         chk.eq_array(f"{tag}.step{st['calls']}.exponent", M, want_ln, fn="eko.kernels.singlet_qed:eko_iterate", replay=rp,
                                      goal="a_em = 0: exp_matrix receives embed(L_S, 0, l_+) resp. diag(l_V, l_-) with the QCD per-step exponents (zero photon row/column, no mixing)")
                         ok = all(P.prove_zero(T.lift(M[i, j]) - T.lift(want_ln[i, j]))[0] for i in range(dim) for j in range(dim))
@@ -314,6 +319,31 @@ def run(chk):
                     finally:
                         ad.exp_matrix = saved_em
                         hook.ACTIVE_CUTS.clear()
+                    # concrete numbers of steps, the loop executed as it is (no cut): the j-th exponential is built on the j-th interval and the kernel is X_K @ ... @ X_1
+                    if m == 1 and n in (1, 3):
+                        for Kst in (1, 2):
+                            asl = [T.var(f"as_{j}") for j in range(Kst + 1)]
+                            ahl = np.array([[T.var(f"ah_{j}"), Q(0)] for j in range(1, Kst + 1)], dtype=object)
+                            seen_M = []
+
+                            def unrolled_stub(M, seen_M=seen_M):
+                                seen_M.append(np.array(M, dtype=object))
+                                return (symmat(f"XU{len(seen_M)}_", dim), None, None)
+
+                            ad.exp_matrix = unrolled_stub
+                            try:
+                                Ku = np.array(disp((n, m), EvoMethods.ITERATE_EXACT, GG, asl, ahl, 4, Kst, (1, 0)), dtype=object)
+                            finally:
+                                ad.exp_matrix = saved_em
+                            tagu = f"{tag}.unrolled[steps={Kst}]"
+                            chk.ground(f"{tagu}.one_exponential_per_step", len(seen_M) == Kst, fn=fnm, replay=rp, goal="exp_matrix is called once per step", detail=f"{len(seen_M)} calls")
+                            wantK = vnp.eye(dim)
+                            for j in range(1, Kst + 1):
+                                wantK = symmat(f"XU{j}_", dim) @ wantK
+                                if j <= len(seen_M):
+                                    chk.eq_array(f"{tagu}.exponent_of_step{j}", seen_M[j - 1], spec_ln(ahl[j - 1, 0], asl[j] - asl[j - 1]), fn="eko.kernels.singlet_qed:eko_iterate", replay=rp,
+                                                 goal="the j-th exponential is built on the j-th interval: a_half[j-1] with as_list[j] - as_list[j-1]")
+                            chk.eq_array(f"{tagu}.path_ordered_product", Ku, wantK, fn=fnm, replay=rp, goal="kernel == X_K @ ... @ X_1 (later steps to the left)")
                     chk.configs += 1
     finally:
         beta.beta_qcd = saved_beta
